@@ -53,6 +53,7 @@ type c37Rec struct {
 	Infeasible int        `json:"infeasible"`
 	Adapted    int        `json:"adapted"`
 	Unfinished []int      `json:"unfinished"`
+	discard    string
 }
 
 // c37Op is one call through the wrapper.
@@ -63,6 +64,7 @@ type c37Op struct {
 	lock     bool
 	gid      atomic.Int64
 	parked   atomic.Bool
+	released atomic.Bool // the controller opened the gate
 	returned atomic.Bool
 	gate     chan struct{}
 	tCall    int64
@@ -94,7 +96,6 @@ func (b *c37Inner) enter(h backend.Handle) {
 	if b.gated {
 		op.parked.Store(true)
 		<-op.gate
-		op.parked.Store(false)
 	} else {
 		for i := 0; i < op.o%4; i++ {
 			runtime.Gosched()
@@ -181,7 +182,7 @@ func c37States() map[int64]string {
 		state := string(m[2])
 		top := ""
 		for _, l := range lines[1:] {
-			if len(l) == 0 || l[0] == '\t' {
+			if len(l) == 0 || l[0] == '\t' || bytes.HasPrefix(l, []byte("created by ")) {
 				continue
 			}
 			if bytes.HasPrefix(l, []byte("sync.")) || bytes.HasPrefix(l, []byte("runtime.")) || bytes.HasPrefix(l, []byte("internal/")) || bytes.HasPrefix(l, []byte("sync/")) {
@@ -208,48 +209,83 @@ func c37IsBlocked(state string) bool {
 
 var c37Beat atomic.Int64
 
-// c37Settle waits until every tracked goroutine has returned or is blocked.  It reports false on timeout.
+// c37Settle waits until every tracked goroutine is parked: returned, at its gate inside the wrapped backend
+// (flag, no inspection needed), or -- for operations that have not reached the wrapped backend -- blocked
+// inside package sema according to the goroutine dump.  Dumps stop the world, so they are taken only when
+// needed and with growing pauses (on an overloaded host frequent stops can starve the very goroutines we wait
+// for).  It reports false on timeout.
 func c37Settle(ops []*c37Op, extra []*atomic.Int64, extraDone []*atomic.Bool) bool {
-	deadline := time.Now().Add(60 * time.Second)
+	deadline := time.Now().Add(30 * time.Second)
+	pause := 20 * time.Microsecond
 	for spin := 0; ; spin++ {
-		ok := true
-		var st map[int64]string
-		check := func(gid int64) {
-			if gid == 0 {
-				ok = false
-				return
-			}
-			if st == nil {
-				st = c37States()
-			}
-			s, found := st[gid]
-			if !found || !c37IsBlocked(s) {
-				ok = false // still running, or exited but the flag is not yet visible
-			}
-		}
+		ok, needDump := true, false
+		var gids []int64
 		for _, op := range ops {
-			if op.returned.Load() {
-				continue
+			switch {
+			case op.returned.Load():
+			case op.released.Load():
+				ok = false // on its way out of the wrapped backend
+			case op.parked.Load():
+			default:
+				g := op.gid.Load()
+				if g == 0 {
+					ok = false
+				} else {
+					needDump = true
+					gids = append(gids, g)
+				}
 			}
-			check(op.gid.Load())
 		}
 		for i, g := range extra {
 			if extraDone[i].Load() {
 				continue
 			}
-			check(g.Load())
+			if v := g.Load(); v == 0 {
+				ok = false
+			} else {
+				needDump = true
+				gids = append(gids, v)
+			}
+		}
+		var st map[int64]string
+		if ok && needDump {
+			st = c37States()
+			for _, g := range gids {
+				if s, found := st[g]; !found || !c37IsBlocked(s) {
+					ok = false
+				}
+			}
+			if ok {
+				// look twice: the same picture after a pause, and nobody reached the wrapped backend meanwhile
+				time.Sleep(pause)
+				for _, op := range ops {
+					if !op.returned.Load() && !op.released.Load() && !op.parked.Load() && op.tStart.Load() != 0 {
+						ok = false
+					}
+				}
+				st2 := c37States()
+				for _, g := range gids {
+					if st2[g] != st[g] {
+						ok = false
+					}
+				}
+			}
 		}
 		if ok {
 			c37Beat.Add(1)
 			return true
 		}
 		if time.Now().After(deadline) {
+			_ = os.WriteFile(kit.OutDir()+"/c37_settle_timeout.txt", []byte(fmt.Sprintf("tracked gids %v states %v\n%s", gids, st, c37LastDump)), 0o644)
 			return false
 		}
-		if spin < 50 {
+		if spin < 20 {
 			runtime.Gosched()
 		} else {
-			time.Sleep(50 * time.Microsecond)
+			time.Sleep(pause)
+			if pause < 5*time.Millisecond {
+				pause = pause * 3 / 2
+			}
 		}
 	}
 }
@@ -278,9 +314,22 @@ func c37Replay(v c37Vec, rng interface{ Intn(int) int }, res *kit.Result) (rec c
 	var curFreezeDone *atomic.Bool
 	var tFreeze *atomic.Int64
 
-	quiet := func() bool {
+	started := map[int]bool{}
+	// cause: 0 = Freeze, o > 0 = call of o, -1 = a release of a wrapped call / Unfreeze (anything may follow)
+	quiet := func(cause int) bool {
 		if !c37Settle(all, fgid, fdone) {
 			return false
+		}
+		// In a quiescent state nothing moves by itself: an operation that reached the wrapped backend although
+		// the last controller action cannot have let it go means the previous state was not quiescent (goroutine
+		// descheduled on an overloaded host while it looked parked): the run proves nothing, drop it.
+		for _, op := range all {
+			if op.tStart.Load() != 0 && !started[op.o] {
+				started[op.o] = true
+				if cause >= 0 && op.o != cause {
+					rec.discard = fmt.Sprintf("operation %d started without cause after action %d", op.o, cause)
+				}
+			}
 		}
 		if fpending && curFreezeDone.Load() {
 			fpending, frozen = false, true
@@ -307,6 +356,7 @@ func c37Replay(v c37Vec, rng interface{ Intn(int) int }, res *kit.Result) (rec c
 						fmt.Fprintf(f, "lock op %d gid %d looked parked before its start\n%s\n=====\n", op.o, op.gid.Load(), dump)
 						_ = f.Close()
 					}
+					rec.discard = fmt.Sprintf("lock operation %d was not scheduled for a while", op.o)
 					if !c37Settle(all, fgid, fdone) {
 						return false
 					}
@@ -323,8 +373,10 @@ func c37Replay(v c37Vec, rng interface{ Intn(int) int }, res *kit.Result) (rec c
 		return true
 	}
 	for _, ev := range v.Sched {
+		cause := -1
 		switch {
 		case ev == 1: // Freeze
+			cause = 0
 			if frozen || fpending {
 				rec.Infeasible++
 				continue
@@ -352,6 +404,7 @@ func c37Replay(v c37Vec, rng interface{ Intn(int) int }, res *kit.Result) (rec c
 				rec.Infeasible++
 				continue
 			}
+			cause = o
 			op := &c37Op{o: o, lock: ev%10 == 1, kind: rng.Intn(4), gate: make(chan struct{})}
 			if op.lock {
 				op.typ = backend.LockFile
@@ -369,12 +422,12 @@ func c37Replay(v c37Vec, rng interface{ Intn(int) int }, res *kit.Result) (rec c
 		default: // end
 			o := ev / 10
 			op := ops[o]
-			if op == nil || !op.parked.Load() {
+			if op == nil || !op.parked.Load() || op.released.Load() {
 				// the real wrapper resolved a race differently from this model behaviour (who got the token /
 				// the mutex): release another parked operation instead, if there is one
 				op = nil
 				for _, c := range all {
-					if c.parked.Load() {
+					if c.parked.Load() && !c.released.Load() {
 						op = c
 						break
 					}
@@ -385,9 +438,10 @@ func c37Replay(v c37Vec, rng interface{ Intn(int) int }, res *kit.Result) (rec c
 				}
 				rec.Adapted++
 			}
+			op.released.Store(true)
 			op.gate <- struct{}{}
 		}
-		if !quiet() {
+		if !quiet(cause) {
 			return rec, false
 		}
 	}
@@ -400,12 +454,13 @@ func c37Replay(v c37Vec, rng interface{ Intn(int) int }, res *kit.Result) (rec c
 		}
 		n := 0
 		for _, c := range all {
-			if c.parked.Load() {
+			if c.parked.Load() && !c.released.Load() {
+				c.released.Store(true)
 				c.gate <- struct{}{}
 				n++
 			}
 		}
-		if !quiet() {
+		if !quiet(-1) {
 			return rec, false
 		}
 		if n == 0 && !frozen && !fpending {
@@ -559,7 +614,7 @@ func TestVerif_C37(t *testing.T) {
 	rng := kit.Rand(37)
 	sc := bufio.NewScanner(f)
 	sc.Buffer(make([]byte, 1<<20), 1<<24)
-	n := 0
+	n, timeouts, discards := 0, 0, 0
 	for sc.Scan() {
 		var v c37Vec
 		if err := json.Unmarshal(sc.Bytes(), &v); err != nil {
@@ -569,8 +624,23 @@ func TestVerif_C37(t *testing.T) {
 		n++
 		rec, ok := c37Replay(v, rng, res)
 		if !ok {
-			res.Problem("goroutines did not settle within 60 s while replaying %v", v.Sched)
-			return
+			// goroutines that never look parked: on an overloaded host this can be the harness; do not judge
+			timeouts++
+			res.Count("discarded_settle_timeout", 1)
+			if timeouts > 3 {
+				res.Problem("goroutines did not settle within 30 s in %d schedules, last %v", timeouts, v.Sched)
+				return
+			}
+			continue
+		}
+		if rec.discard != "" {
+			res.Count("discarded_not_quiescent", 1)
+			discards++
+			if discards > 20+n/20 {
+				res.Problem("too many inconclusive replays (%d of %d), last: %s", discards, n, rec.discard)
+				return
+			}
+			continue
 		}
 		note(rec)
 	}
